@@ -96,6 +96,14 @@ def gcirc(ra1, dec1, ra2, dec2, units=2):
     # Subtracting the already rounded radian values limits the accuracy
     # of sub-milliarcsecond separations.
     #
+    #
+    # Integer coordinates are computed as doubles: differences of unsigned
+    # integers wrap around and short integers are otherwise promoted to
+    # single precision only.
+    #
+    ra1, dec1, ra2, dec2 = [np.asarray(c, dtype=np.float64)
+                            if np.asarray(c).dtype.kind in 'iub' else c
+                            for c in (ra1, dec1, ra2, dec2)]
     if units == 0:
         dcrad1 = dec1
         dcrad2 = dec2
